@@ -10,4 +10,4 @@ RULE = ("valid streams of every method (sequential / Edgebreaker standard+valenc
 def run(ctx):
     decsearch.standard(ctx, __import__(__name__), ["C18"], RULE)
 def replay(ctx, path):
-    import json; print(json.dumps(json.load(open(path)), indent=1)[:6000]); return 0
+    return decsearch.replay(ctx, path, ["C18"], __import__(__name__))
